@@ -37,4 +37,14 @@ PROPS = {
         "trusted": ["C05 in Lean: preservation proved for every operation except `swap` (obligation SwapPreserves, stated in WP/Props/C05.lean), plus the crossing algebra "
                     "(range_shift, cross_preserves, range_const); the swap loop itself is decided by the history correspondence and the C05 oracle on the implementation"],
     },
+    "C08": {
+        "lean_modules": ["WP.Props.C08"],
+        "lean_support": ["WP.Props.C02.Components", "WP.Props.C02.Amounts", "WP.Lemmas.Rounding"],
+        "families": [("ltd", 40000, 2000000), ("est", 40000, 2000000), ("hist", 3000, 100000)],
+        "history": True,
+        "rule": "ltd: calculate_liquidity_token_deltas (Anchor and Pinocchio on the same serialized position) over usable ranges of all spacings, "
+                "prices on a bound / shifted-tick state / interior / anywhere, liquidity log-uniform up to i128::MAX, both signs; est: "
+                "estimate_max_liquidity_from_token_amounts; hist: increase/decrease inside histories; non-trivial = success with a non-zero amount",
+        "trusted": ["handler-level token_max/token_min comparisons are not yet tied by the translator (they are exercised only through the model's own check)"],
+    },
 }
